@@ -648,3 +648,17 @@ func (p *Program) constTable(g *ssa.Global) (map[string]constant.Value, bool) {
 	}
 	return nil, false
 }
+
+// NamedTypeByPath looks a named type up in any loaded package by import path.
+func (p *Program) NamedTypeByPath(path, typeName string) *types.Named {
+	for _, sp := range p.SSA.AllPackages() {
+		if sp.Pkg.Path() != path {
+			continue
+		}
+		if tn, ok := sp.Pkg.Scope().Lookup(typeName).(*types.TypeName); ok {
+			n, _ := types.Unalias(tn.Type()).(*types.Named)
+			return n
+		}
+	}
+	return nil
+}
